@@ -4,23 +4,22 @@ CONSTANTS
   NamedLo = 3
   DynLo = 5
   WksAddr = 2
-  Names = {"wk", "n1", "n2", "n3"}
-  MaxSock <- Max31
-  KindSeq <- SeqDgram
-  Roles <- DgramOps
+  Names = {"n1"}
+  MaxSock <- Max32r
+  KindSeq <- SeqReuse
+  Roles <- ReuseOps
   Msgs = {1}
-  BindAddrs <- BA
-  Dsts = {2, 5, 6}
-  RecvBuf = 1
+  BindAddrs <- BA56
+  Dsts = {5}
+  RecvBuf = 2
   Backlog = 1
-  WksCheck = FALSE
-  SnlClean = FALSE
+  WksCheck = TRUE
+  SnlClean = TRUE
   KeepDead = FALSE
   Miu <- MiuAB
-  Lens = {0, 3, 4}
+  Lens = {1}
   InsertLast = FALSE
   HdrInMiu = FALSE
-VIEW View
 INVARIANT OneAddrPerSocket
 INVARIANT NoDoubleAlloc
 INVARIANT RangesRespected
